@@ -200,6 +200,7 @@ Section NgSearch.
   Variable h : heuristic.
   Variable rand_filtered : bool.
   Variable two_valued_mode : bool.   (* two_val_nogood_channel: the "stability check" is constantly true *)
+  Variable stop_exhausted : bool.    (* the loop ends when a backtrack finds no choice entry on the stack *)
 
   Definition run_heuristic (st : store) (s : ngstate) : option (option (nat * N) * list N) :=
     match h with
@@ -210,11 +211,12 @@ Section NgSearch.
     | HStatic o v => Some (heu_static o v (g_cur s), g_draws s)
     end.
 
-  (** "while let Some((choice, ng)) = stack.pop()": add the popped nogoods until a choice entry *)
+  (** "while let Some((choice, ng)) = stack.pop()": add the popped nogoods until a choice entry; the
+      last component tells whether one was found *)
   Fixpoint unwind (ngs : ngstore) (stack : list (bool * ng)) (hist : list (list N)) (cur : list N)
-    : option (ngstore * list (bool * ng) * list (list N) * list N) :=
+    : option (ngstore * list (bool * ng) * list (list N) * list N * bool) :=
     match stack with
-    | [] => Some (ngs, [], hist, cur)
+    | [] => Some (ngs, [], hist, cur, false)
     | (ch, g) :: rest =>
       match add_ng ngs g with
       | None => None
@@ -222,7 +224,7 @@ Section NgSearch.
         if ch then
           match hist with
           | [] => None      (* "both stacks should always be synchronous" *)
-          | old :: hist' => Some (ngs', rest, hist', old)
+          | old :: hist' => Some (ngs', rest, hist', old, true)
           end
         else unwind ngs' rest hist cur
       end
@@ -250,8 +252,9 @@ Section NgSearch.
         | _ =>
           match unwind (g_store s1) (g_stack s1) (g_hist s1) (g_cur s1) with
           | None => Some (inl Panic)
-          | Some (ngs, stk, hist, cur) =>
-            Some (inr (mkNG cur ngs stk hist false (g_choice s1) (g_out s1) (g_draws s1)))
+          | Some (ngs, stk, hist, cur, found) =>
+            let s2 := mkNG cur ngs stk hist false (g_choice s1) (g_out s1) (g_draws s1) in
+            if stop_exhausted && negb found then Some (inl (Break st s2)) else Some (inr s2)
           end
         end
       else Some (inr s1) in
@@ -324,4 +327,4 @@ End NgSearch.
 (** the searches as the current source has them (flags regenerated by tools/translate.py) *)
 Definition stable_count_cur (c : cfg) heu (ac : list N) := stable_count c heu ac g_count_stop_on_err.
 Definition nogood_search_cur (c : cfg) (ac : list N) (h : heuristic) (two : bool) :=
-  nogood_search c ac h g_rand_filtered two.
+  nogood_search c ac h g_rand_filtered two g_ng_stop_exhausted.
